@@ -1,8 +1,8 @@
-\* one injected API fault at any gated call
+\* user deletes the Job at any time; the Pod watch may break
 SPECIFICATION Spec
 CONSTANTS
  N = 1
- MaxAtt = 2
+ MaxAtt = 1
  Delay = 1
  Strategy = "AllSuccessful"
  PT = 2
@@ -12,16 +12,16 @@ CONSTANTS
  Foreign = FALSE
  MaxTime = 4
  MaxEvq = 2
- MaxFaults = 1
+ MaxFaults = 0
  MaxCrash = 0
  Fresh = TRUE
  KillDelays = {}
  KillEdits = {}
- UserDeletes = FALSE
+ UserDeletes = TRUE
  ExtDeletes = FALSE
  NodeDowns = FALSE
  Rejects = FALSE
- Holds = FALSE Invalids = FALSE WatchBreaks = FALSE
+ Holds = FALSE Invalids = FALSE WatchBreaks = TRUE
 INVARIANTS TypeOK C08_OneLive C09_NotLost C09_NoForeignAdopt C10_SuccOnly C10_FailOnly G_Kill G_Reaches G_Listed G_Deleted G_Foreign
 PROPERTIES C08_Order C08_Delay C08_Gates C09_Keep C10_NoLiveAtFinish C11_Monotone C12_DeleteJustified C12_ForceGate C12_KillSticky C13_Order C13_TTLNotEarly
 CHECK_DEADLOCK FALSE
